@@ -98,6 +98,9 @@ func (e *otherEnv) run(cs *caseT) *outcome {
 	case "blockchain":
 		return e.runBC(cs)
 	case "txpool":
+		if cs.Kind == "fetcher" {
+			return e.runFetcherSeq(cs)
+		}
 		return e.runTx(cs)
 	case "evidence":
 		return e.runEv(cs)
